@@ -766,6 +766,10 @@ impl ReplDriver {
         self.rec().emit(json!({"e":"create","c":"w","key":"k1","writable":true,"view":vw}));
         let vr = p.r.view();
         self.rec().emit(json!({"e":"create","c":"r","key":"k1","writable":false,"view":vr}));
+        // a subscriber that is attached but never drained while the peer's requests are served
+        // (best-effort delivery: a full queue must not stall the calls)
+        let _idle_w = p.w.hc.as_ref().map(|h| h.event_subscribe());
+        let _idle_r = p.r.hc.as_ref().map(|h| h.event_subscribe());
         for i in 0..nblocks {
             let b: Vec<u8> = (0..(1 + i % 3)).map(|k| (i as u8).wrapping_mul(5).wrapping_add(k as u8)).collect();
             p.wbytes.push(b.len() as u64);
@@ -1197,6 +1201,18 @@ fn arbitrary_proofs(p: &mut Pair, bl: &[u64], rng: &mut StdRng, n: usize) -> Vec
             .collect()
     };
     let fork = p.r.hc.as_ref().map(|h| h.info().fork).unwrap_or(0);
+    // a hash or seek section consisting of a single node whose hash has the wrong length, for
+    // every tree index the replica may store: the bare node is then compared with the stored one
+    let rl = p.r.len();
+    for idx in 0..(2 * rl).min(24) {
+        for hl in [0usize, 1, 3, 31, 33] {
+            let node = Node::new(idx, vec![0xAB; hl], 1);
+            out.push((format!("bare-hash-node-{idx}-len{hl}"),
+                      Proof { fork, block: None, hash: Some(DataHash { index: idx, nodes: vec![node.clone()] }), seek: None, upgrade: None }));
+            out.push((format!("bare-seek-node-{idx}-len{hl}"),
+                      Proof { fork, block: None, hash: None, seek: Some(DataSeek { bytes: 1, nodes: vec![node] }), upgrade: None }));
+        }
+    }
     for k in 0..n {
         let block = if rng.gen_bool(0.5) {
             Some(DataBlock { index: pick(rng), value: (0..rng.gen_range(0..4)).map(|_| rng.gen()).collect(), nodes: mk_nodes(rng) })
